@@ -287,7 +287,9 @@ CONTROLS = {"pause": 1, "pause2": 1, "resume": 2, "cancel": 1, "restore": 2}
 
 def strat_sound(tier):
     base = gen.scenario(CFG, flags={"pending": 1, "badreq": 1}, max_choices=60, controls=CONTROLS)
-    return st.builds(lambda s, rr: dict(s, rerun=rr), base, st.sampled_from([0, 1, 2, 3]))
+    # a quarter of the histories with lazy first reports (DESIGN 2.3): the first status of a dispatched action
+    # may arrive after its task has completed through a sibling item, or has been staged again for a retry
+    return st.builds(lambda s, rr, lz: dict(s, rerun=rr, flags=dict(s["flags"], lazy=1, eager_poll=0) if lz == 0 else s["flags"]), base, st.sampled_from([0, 1, 2, 3]), st.integers(0, 3))
 
 
 PARTS = [
